@@ -835,3 +835,59 @@ func ArgsString(args [][]byte) string {
 	}
 	return b.String()
 }
+
+// Rehome moves every key to the master that owns its slot (after a layout change
+// performed by the operator with data migration).
+func (w *World) Rehome() {
+	w.mu.Lock()
+	defer w.mu.Unlock()
+	type kv struct {
+		k string
+		o *ref.Obj
+	}
+	var all []kv
+	for _, n := range w.Nodes {
+		if n.KS != nil && n.Master < 0 {
+			for k, o := range n.KS.M {
+				all = append(all, kv{k, o})
+			}
+			n.KS.M = map[string]*ref.Obj{}
+		}
+	}
+	for _, e := range all {
+		o := w.owner[ref.Slot([]byte(e.k))]
+		if o >= 0 && w.Nodes[o].KS != nil {
+			w.Nodes[o].KS.M[e.k] = e.o
+		}
+	}
+}
+
+// KeyFor returns a key with the given prefix whose slot is owned by master m (""
+// if none is found quickly).
+func (w *World) KeyFor(m int, prefix string) string {
+	w.mu.Lock()
+	defer w.mu.Unlock()
+	for i := 0; i < 200000; i++ {
+		k := prefix + strconv.Itoa(i)
+		if w.owner[ref.Slot([]byte(k))] == m {
+			return k
+		}
+	}
+	return ""
+}
+
+// OwnerSnapshot copies the slot table.
+func (w *World) OwnerSnapshot() []int {
+	w.mu.Lock()
+	defer w.mu.Unlock()
+	r := make([]int, NumSlots)
+	copy(r, w.owner[:])
+	return r
+}
+
+// AcceptsOf returns the accept counter of node i.
+func (w *World) AcceptsOf(i int) int {
+	w.mu.Lock()
+	defer w.mu.Unlock()
+	return w.Nodes[i].Accepts
+}
